@@ -270,10 +270,12 @@ func judgeRetry(r *vrun.Run, c retryCase, log []inv, err error, panicked any, ti
 	}
 	wit := func(detail any) witness {
 		cc := c
-		return witness{Part: "retry", Retry: &cc, Detail: map[string]any{"invocations": log, "returned": fmt.Sprint(err), "observation": detail}}
+		return witness{Part: "retry", Retry: &cc, Detail: map[string]any{"invocations": log, "returned": fmt.Sprint(err), "wait_class": waitClass(c.Policy), "observation": detail}}
 	}
 	sig := func(pre, effect string) vrun.Sig {
-		return vrun.Sig{"part": "retry", "ep": fam, "pre": pre, "effect": effect, "wait": waitClass(c.Policy)}
+		// the wait class (zero / sub-microsecond / ...) is in the witness and the text, not in the
+		// signature: the signature names entry point, precondition class and effect class only
+		return vrun.Sig{"part": "retry", "ep": fam, "pre": pre, "effect": effect}
 	}
 	r.Obs("retry_calls", 1)
 	r.Obs("retry_invocations_logged", int64(len(log)))
@@ -303,8 +305,9 @@ func judgeRetry(r *vrun.Run, c retryCase, log []inv, err error, panicked any, ti
 				r.Violation(sig("context-done-before-call", "invoked-after-context-done"),
 					fmt.Sprintf("%s: invocation #%d although the context was done before the call (script %q)", fam, i+1, c.Script), wit(nil))
 			case e.DoneBefore:
+				r.Obs("retry_reinvoked_after_cancel/wait="+waitClass(c.Policy), 1)
 				r.Violation(sig("context-done-by-earlier-attempt", "invoked-after-context-done"),
-					fmt.Sprintf("%s: invocation #%d started after an earlier invocation had cancelled the context (script %q, RetryMax %d, %s min=%dns)", fam, i+1, c.Script, c.Policy.RetryMax, c.Policy.Kind, c.Policy.WaitMinNs), wit(nil))
+					fmt.Sprintf("%s: invocation #%d started after an earlier invocation had cancelled the context (script %q, RetryMax %d, %s min=%dns max=%dns, wait class %s)", fam, i+1, c.Script, c.Policy.RetryMax, c.Policy.Kind, c.Policy.WaitMinNs, c.Policy.WaitMaxNs, waitClass(c.Policy)), wit(nil))
 			}
 			if prev.Outcome == "O" {
 				r.Violation(sig("after-success", "invoked-again"), fmt.Sprintf("%s: invocation #%d after a success (script %q)", fam, i+1, c.Script), wit(nil))
@@ -377,10 +380,8 @@ func judgeRetry(r *vrun.Run, c retryCase, log []inv, err error, panicked any, ti
 	}
 	// e.
 	wantKind, wantName := commonerrors.ErrCancelled, "cancelled"
-	rawCtx := context.Canceled
 	if c.Ctx == "custom-deadline" {
 		wantKind, wantName = commonerrors.ErrTimeout, "timeout"
-		rawCtx = context.DeadlineExceeded
 	}
 	if errors.Is(err, context.Canceled) || errors.Is(err, context.DeadlineExceeded) {
 		r.Violation(sig("context-done", "raw-context-error"), fmt.Sprintf("%s returned the raw context error %v instead of the %s kind", fam, err, wantName), wit(nil))
@@ -398,7 +399,6 @@ func judgeRetry(r *vrun.Run, c retryCase, log []inv, err error, panicked any, ti
 		}
 	}
 	isKind := commonerrors.Any(err, wantKind)
-	_ = rawCtx
 	switch {
 	case isLast:
 		r.Obs("retry_last_error_returned", 1)
